@@ -1,6 +1,6 @@
 #!/bin/bash
 # tools/confirm2.sh Cxx : confirm round-2 seeded changes (1..3) in /tmp/wt2/Cxx
-pid=$1; wt=/tmp/wt2/$pid; inc=/verif/seeded/_incoming2/$pid
+pid=$1; wt=/tmp/wt2/$pid; inc=/verif/seeded/${INC:-_incoming2}/$pid
 run() { (cd $wt && PYTHONPATH=$wt/src:$wt PYTHONHASHSEED=0 timeout 1800 /venv/bin/python -W ignore "$@"); }
 cd $wt || exit 2; git checkout -q -- . ; git checkout -q --detach main
 for k in 1 2 3; do
